@@ -521,6 +521,14 @@ class Powertrain:
         ]
         data = pd.DataFrame(columns=columns)
 
+        # 'target_time' has been checked to be within the simulation interval
+        # up to the rounding of a unit conversion: keep the interpolation
+        # point on the simulated time axis
+        target_seconds = min(
+            max(target_time.to('sec').value, min(self.time).to('sec').value),
+            max(self.time).to('sec').value
+        )
+
         for element in self.elements:
             for variable, unit in zip(
                 [
@@ -550,7 +558,7 @@ class Powertrain:
                     )
                     data.loc[element.name, f'{variable} ({unit})'] = \
                         interpolation_function(
-                        target_time.to('sec').value
+                        target_seconds
                     ).take(0)
 
             if isinstance(element, MotorBase):
@@ -560,7 +568,7 @@ class Powertrain:
                         y=element.time_variables['pwm']
                     )
                     data.loc[element.name, 'pwm'] = interpolation_function(
-                        target_time.to('sec').value
+                        target_seconds
                     ).take(0)
 
                 if 'electric current' in variables:
@@ -580,7 +588,7 @@ class Powertrain:
                             element.name,
                             f'electric current ({current_unit})'
                         ] = interpolation_function(
-                            target_time.to('sec').value
+                            target_seconds
                         ).take(0)
 
             if isinstance(element, GearBase | WormGear):
@@ -612,7 +620,7 @@ class Powertrain:
                         element.name,
                         f'{variable} ({unit})'
                     ] = interpolation_function(
-                        target_time.to('sec').value
+                        target_seconds
                     ).take(0)
 
         if print_data:
